@@ -29,7 +29,8 @@ def time_limit(seconds: float | None = None):
     except ValueError:  # not in the main thread
         yield
         return
-    signal.setitimer(signal.ITIMER_REAL, seconds)
+    # periodic after the first expiry: should some library swallow the exception, it is raised again a second later
+    signal.setitimer(signal.ITIMER_REAL, seconds, 1.0)
     _ACTIVE = True
     try:
         yield
